@@ -315,3 +315,4 @@ def rules(ctx):
     # command decides whether commands that share a mode / a measured parameter keep their order (shared with C03)
     from . import c03
     c03.wire_uniqueness(ctx, "C04.optimizer-order")
+    ctx.shared(c03.no_mutation)
